@@ -2,6 +2,7 @@ import M3d.Basic
 import M3d.Model.Conc
 import M3d.Model.ConcQuery
 import M3d.Model.ConcIter
+import M3d.Model.ConcDerive
 /-! Line-protocol handler for C13.  Core-only.
 
 * `c13 <scenario> … seq=<answer>` — the property requires the concurrent answer to equal the
@@ -32,6 +33,10 @@ import M3d.Model.ConcIter
   (goroutine 1) on one renderer with `Antialias = 2`, `RayVariance` zeroing the renderer's own
   field / a private copy (`renderer_config_field_racy`,
   `renderer_calls_private_config_eq_sequential`).
+* `c13 optsearch inplace|copy` — all complete schedules of a `Contains` (goroutine 0, point in
+  part 1 of the union 3, 2, 1) and an `Optimize()` (goroutine 1, grouping = reversal) that groups
+  the union's own slice / a copy of its own (`optimize_in_place_racy`,
+  `optimize_private_copy_eq_sequential`).
 * `c13 updsearch` / `c13 redsearch` — the two-thread witnesses for the unsynchronised
   `updateAt` and the reduction without lock.
 -/
@@ -148,6 +153,19 @@ def handleAll (ws : List String) : Option String :=
           let c := run p (structInit 2) s
           some s!"witness schedule={showSched s} races={c.races.length} render-sampled-with={(c.thr 1).out} sequential=2 field-afterwards={c.mem CFG}"
       | none => some s!"ok schedules={countSchedules p 2 10 (structInit 2)}"
+  | ["optsearch", kind] =>
+      let grp : Tid → Option (Val → Val) := fun t => if t = 1 then some rev3 else none
+      let q : Program :=
+        if kind == "inplace" then unionInPlaceProg grp nth3 (fun _ => accIn1) 3
+        else unionProg grp nth3 (fun _ => accIn1) 3
+      let p : Program := fun t => if t < 2 then q t else []
+      let wrong : Config → Bool := fun c => (done p c 0 && c.mem (UANS 0) != 1) || (done p c 1 && (c.thr 1).out != 123)
+      let bad : Config → Bool := fun c => !c.races.isEmpty || wrong c
+      match (findSchedule p 2 wrong 14 (structInit 321)).orElse fun _ => findSchedule p 2 bad 14 (structInit 321) with
+      | some s =>
+          let c := run p (structInit 321) s
+          some s!"witness schedule={showSched s} races={c.races.length} contains={c.mem (UANS 0)} sequential=1 parts-afterwards={c.mem PARTS}"
+      | none => some s!"ok schedules={countSchedules p 2 14 (structInit 321)} ownership={progRO iterOwn iterShared p 2}"
   | ["updsearch"] =>
       let p : Program := fun t => if t < 2 then updateAtRacy ([5, 3].getD t 0) else []
       match findSchedule p 2 (fun c => !c.races.isEmpty && c.mem CELL != 5) 10 Config.init with
